@@ -104,7 +104,8 @@ pub fn outside_ids(m: &UModel) -> Vec<usize> {
 /// defined sequence under every way of consuming it: stepping with `next()`
 /// and then finishing with `count`, `last`, `fold`, `nth`, `collect`, `max`/`min`
 /// (and their `_by` forms), `reduce`, `for_each`, `try_fold`, `find`, `position`, `any`, `all`,
-/// `skip`, `step_by` or `by_ref().take`, with
+/// `skip`, `step_by` or `by_ref().take`, counts at / past the end / usize::MAX
+/// handed to `nth` and `skip`, and polling after the first `None`, with
 /// a `size_hint` that brackets what is left.
 pub fn protocol<T, I>(what: &str, make: impl Fn() -> I, want: &[T]) -> Verdict
 where
@@ -159,6 +160,29 @@ where
         ensure!(f == rest, "{what}: after {k} next() calls fold() visits {f:?}, expected {rest:?}");
         let x = advanced().nth(1);
         ensure!(x.as_ref() == rest.get(1), "{what}: after {k} next() calls nth(1) = {x:?}, expected {:?}", rest.get(1));
+        // counts at and past the end, and polling an exhausted iterator: every
+        // item is listed once, so nothing may come after the first None
+        for over in [rest.len(), rest.len() + 3, usize::MAX] {
+            let mut it = advanced();
+            let x = it.nth(over);
+            ensure!(x.is_none(), "{what}: after {k} next() calls nth({over}) = {x:?} although only {} items remain", rest.len());
+            let again = (it.next(), it.next());
+            ensure!(again.0.is_none() && again.1.is_none(), "{what}: after {k} next() calls and nth({over}) = None, polling again yields {again:?}");
+            let l = it.last();
+            ensure!(l.is_none(), "{what}: after {k} next() calls and nth({over}) = None, last() = {l:?}");
+        }
+        {
+            let mut it = advanced();
+            for _ in 0..rest.len() {
+                let _ = it.next();
+            }
+            let again = (it.next(), it.next(), it.size_hint().0);
+            ensure!(again.0.is_none() && again.1.is_none() && again.2 == 0, "{what}: exhausted with next(), polling again yields {:?} (size_hint lower bound {})", (&again.0, &again.1), again.2);
+            ensure!(it.count() == 0, "{what}: exhausted with next(), count() is not 0");
+            let mut it = advanced();
+            let c = it.by_ref().skip(usize::MAX).count();
+            ensure!(c == 0 && it.next().is_none(), "{what}: after {k} next() calls by_ref().skip(usize::MAX) leaves items behind");
+        }
         // the remaining provided methods an iterator type may override (on
         // long sequences: at the middle split only, and not beyond 4096 items)
         if n > 48 && (k != n / 2 || n > 4096) {
@@ -375,6 +399,21 @@ pub fn check_queries_opt<D: Queries>(g: &D, name: &str, m: &UModel, walks: &[Vec
     ensure!(g.min_indegree() == mn(&indeg), "{name}: min_indegree() = {}, definition {}", g.min_indegree(), mn(&indeg));
     ensure!(g.max_outdegree() == mx(&outdeg), "{name}: max_outdegree() = {}, definition {}", g.max_outdegree(), mx(&outdeg));
     ensure!(g.min_outdegree() == mn(&outdeg), "{name}: min_outdegree() = {}, definition {}", g.min_outdegree(), mn(&outdeg));
+    // the provided (default) bodies of is_source / is_sink / max_* / min_*: a
+    // user-side wrapper implements only indegree / outdegree / vertices
+    {
+        use graaf::{Indegree as _, Outdegree as _};
+        let w = reprs::Wrapped(g.clone());
+        let what = format!("user-defined wrapper of {name} (provided trait methods)");
+        for &v in &probe {
+            ensure!(w.is_source(v) == (indeg_of[&v] == 0), "{what}: is_source({v}) = {}, indegree is {}", w.is_source(v), indeg_of[&v]);
+            ensure!(w.is_sink(v) == (outdeg_of[&v] == 0), "{what}: is_sink({v}) = {}, outdegree is {}", w.is_sink(v), outdeg_of[&v]);
+        }
+        ensure!(w.max_indegree() == mx(&indeg), "{what}: max_indegree() = {}, definition {}", w.max_indegree(), mx(&indeg));
+        ensure!(w.min_indegree() == mn(&indeg), "{what}: min_indegree() = {}, definition {}", w.min_indegree(), mn(&indeg));
+        ensure!(w.max_outdegree() == mx(&outdeg), "{what}: max_outdegree() = {}, definition {}", w.max_outdegree(), mx(&outdeg));
+        ensure!(w.min_outdegree() == mn(&outdeg), "{what}: min_outdegree() = {}, definition {}", w.min_outdegree(), mn(&outdeg));
+    }
     ensure!(*g == before, "{name}: a query changed the digraph");
     Ok(())
 }
